@@ -23,3 +23,12 @@ package benchfmt
 //@   loop 1:
 //@     invariant len(l) == len(b)
 //@     invariant forall k string :: visited(k) ==> has(l, k) && has(b, k) && l[k] == b[k]
+
+// Copy makes an independent label set with the same keys and values.
+//@ func (l Labels) Copy() (n Labels)
+//@   props C19
+//@   ensures n != nil && fresh(n) && labelsWithin(l, n) && labelsWithin(n, l)
+//@   loop 1:
+//@     invariant fresh(new) && new != nil && unchanged()
+//@     invariant forall k string :: visited(k) ==> has(l, k) && has(new, k) && new[k] == l[k]
+//@     invariant forall k string :: has(new, k) ==> has(l, k) && new[k] == l[k]
